@@ -19,6 +19,8 @@ lower_f = z3.Function("lower_f", V, V)
 upper_f = z3.Function("upper_f", V, V)
 strip_f = z3.Function("strip_f", V, V)
 concat_f = z3.Function("concat_f", V, V, V)
+substr_in = z3.Function("substr_in", V, V, z3.BoolSort())
+ofx_intlit = z3.Function("ofx_intlit", V, z3.BoolSort())      # "optional sign followed by decimal digits"
 
 
 def Unsupported(msg):
@@ -41,11 +43,17 @@ def resolve(it, s):
     s = to_sstr(s)
     if s.fixed():
         return s
+    cache = it.st.ghost.setdefault("_resolved", {})
+    hit = cache.get(id(s))
+    if hit is not None and hit[0] is s:
+        return hit[1]
     out = []
     for g, c in s.items:
         if g is True or it.branch(g):
             out.append((True, c))
-    return SStr(out)
+    r = SStr(out)
+    cache[id(s)] = (s, r)
+    return r
 
 
 def slen(it, s):
@@ -156,32 +164,62 @@ def parse_int(it, s, base):
     return SInt(z3.If(negc, -acc, acc))
 
 
+def _free_vars(e, acc=None, seen=None):
+    acc = set() if acc is None else acc
+    seen = set() if seen is None else seen
+    i = e.get_id()
+    if i in seen:
+        return acc
+    seen.add(i)
+    if z3.is_const(e) and e.decl().kind() == z3.Z3_OP_UNINTERPRETED:
+        acc.add(i)
+    for c in e.children():
+        _free_vars(c, acc, seen)
+    return acc
+
+
+def _digits(it, a, k):
+    """the k decimal digits of a (0 <= a < 10**k), most significant first, as z3 Int terms.
+    Two exact encodings: div/mod terms when a depends only on finite-domain variables (so that the
+    tabulation rewrite applies), otherwise fresh digit variables tied to a by one linear equation."""
+    if k == 1:
+        return [a]
+    fin = {v.get_id() for v in it.domains}
+    if fin and _free_vars(a) <= fin:
+        return [(a / (10 ** (k - 1 - i))) % 10 if i < k - 1 else a % 10 for i in range(k)]
+    ds = [it.fresh("dg") for _ in range(k)]
+    it.assume(z3.And(*[z3.And(d >= 0, d <= 9) for d in ds]))
+    it.assume(a == z3.Sum([d * (10 ** (k - 1 - i)) for i, d in enumerate(ds)]))
+    return ds
+
+
 def int_to_sstr(it, e, width=None, pad=48):
     """decimal rendering of a z3 Int as guarded digits; needs a provable bound"""
+    e = z3.simplify(e)
     for k in range(1, 8):
         if it.valid(z3.And(e >= 0, e < 10 ** k)):
             k = max(k, width or 0)
+            ds = _digits(it, e, k)
             items = []
             for i in range(k):
                 p = 10 ** (k - 1 - i)
-                d = 48 + (e / p) % 10 if p > 1 else 48 + e % 10
                 if width is not None and (k - i) <= width:
                     g = True
                 else:
                     g = True if i == k - 1 else (e >= p)
-                items.append((g, d))
+                items.append((g, 48 + ds[i]))
             return SStr(items)
     for k in range(1, 8):
         if it.valid(z3.And(e > -(10 ** k), e < 10 ** k)):
             if width is not None:
                 raise Unsupported("zero-padded negative")
             a = z3.If(e < 0, -e, e)
+            ds = _digits(it, a, k)
             items = [(e < 0, 45)]
             for i in range(k):
                 p = 10 ** (k - 1 - i)
-                d = 48 + (a / p) % 10 if p > 1 else 48 + a % 10
                 g = True if i == k - 1 else (a >= p)
-                items.append((g, d))
+                items.append((g, 48 + ds[i]))
             return SStr(items)
     return None
 
@@ -190,6 +228,7 @@ def opaque_int_str(it, e):
     t = int2str(e)
     it.assume(str2int(t) == e)
     it.assume(is_intlit(t))
+    it.assume(ofx_intlit(t))          # T-LIB: str(int) is an optional '-' followed by decimal digits
     it.assume(tlen(t) >= 1)
     return SVal(str, t)
 
@@ -402,8 +441,7 @@ def contains(it, container, item):
         return zor(*[zand(*[code_eq(c.items[i + j][1], s.items[j][1]) for j in range(m)]) for i in range(n - m + 1)])
     if isinstance(container, SVal) and container.pytype is str:
         # substring test on an opaque text: uninterpreted predicate
-        f = z3.Function("substr_in", V, V, z3.BoolSort())
-        return f(text_term(it, item), container.e)
+        return substr_in(text_term(it, item), container.e)
     if isinstance(container, GList):
         return zor(*[zand(g, zbool(equal(it, item, x))) for g, x in container.items])
     if isinstance(container, (list, tuple, set, frozenset, dict)) or type(container).__name__ in ("dict_keys", "dict_values", "KeysView"):
@@ -463,11 +501,37 @@ def compare(it, op, a, b):
     raise Unsupported(f"ordering on {type(a).__name__}, {type(b).__name__}")
 
 
+def pin_int(it, x):
+    """if the symbolic integer x has a single possible value under the path condition, return it as int"""
+    if not isinstance(x, SInt):
+        return x
+    e = z3.simplify(x.e)
+    if z3.is_int_value(e):
+        return e.as_long()
+    it.solver.push()
+    for c in it.st.pc + it.st.tmp:
+        if c is not True:
+            it.solver.add(c)
+    r = it.solver.check()
+    val = it.solver.model().eval(e, model_completion=True).as_long() if r == z3.sat else None
+    it.solver.pop()
+    if val is not None and it.valid(e == val):
+        return val
+    return x
+
+
 def getitem(it, v, k):
     if isinstance(v, SIte):
         v = it.force(v)
     if isinstance(k, SIte):
         k = it.force(k)
+    if isinstance(v, (SStr, GList)) and not (isinstance(v, SStr) and v.fixed()):
+        if isinstance(k, SInt) or (isinstance(k, slice) and any(isinstance(x, SInt) for x in (k.start, k.stop, k.step))):
+            v = resolve(it, v) if isinstance(v, SStr) else v
+    if isinstance(k, SInt):
+        k = pin_int(it, k)
+    elif isinstance(k, slice) and any(isinstance(x, SInt) for x in (k.start, k.stop, k.step)):
+        k = slice(pin_int(it, k.start), pin_int(it, k.stop), pin_int(it, k.step))
     if isinstance(v, Abstract):
         return v.p_getitem(it, k)
     if isinstance(v, (SStr, str)) and (is_sym(v) or is_sym(k)):
@@ -620,7 +684,7 @@ def m_int(it, args, kw):
     x = it.force(args[0]) if isinstance(args[0], SIte) else args[0]
     base = args[1] if len(args) > 1 else kw.get("base", 10)
     if not is_sym(x):
-        return it.native(int, list(args), kw)
+        return it.native(int, [x] + list(args[1:]), kw)
     if isinstance(x, SInt):
         return x
     if isinstance(x, SBool):
@@ -655,6 +719,10 @@ def m_str(it, args, kw):
         return it.ite(x.e, "True", "False")
     if isinstance(x, Abstract) and hasattr(x, "p_str"):
         return x.p_str(it)
+    import decimal as _d
+    if isinstance(x, SVal) and x.pytype is _d.Decimal:
+        from . import models_dec
+        return models_dec.p_str(it, x)
     return fresh_text(it, "str")
 
 
@@ -935,6 +1003,38 @@ def m_chr(it, args, kw):
     raise Unsupported("chr")
 
 
+def unescape_symbol(entities):
+    """the uninterpreted function standing for saxutils.unescape with this entity table.
+    saxutils replaces &lt; and &gt; first, then the given entities in dict order, &amp; last."""
+    mid = tuple(sorted(entities.items()))
+    key = "unesc_" + "_".join(f"{k.strip('&;')}{ord(v) if len(v) == 1 else 'X'}" for k, v in mid)
+    return z3.Function(key, V, V)
+
+
+def m_unescape(it, args, kw):
+    data = args[0]
+    ents = args[1] if len(args) > 1 else kw.get("entities", {})
+    if not is_sym(data):
+        import xml.sax.saxutils as sx
+        return it.native(sx.unescape, [data, ents], {})
+    if not deep_concrete(ents):
+        raise Unsupported("unescape with symbolic entity table")
+    if isinstance(data, SStr):
+        raise Unsupported("unescape on shaped string")
+    return unescape_term(it, dict(ents), data.e)
+
+
+def unescape_term(it, ents, e):
+    """r = unescape(e) with the facts assumed about it (T-LIB): identity on texts without '&'; never longer
+    than the input; non-empty input gives non-empty output"""
+    f = unescape_symbol(ents)
+    r = f(e)
+    amp = it.lit("&")
+    it.assume(z3.Implies(z3.Not(substr_in(amp, e)), r == e))
+    it.assume(z3.And(tlen(r) <= tlen(e), tlen(r) >= 0, z3.Implies(tlen(e) > 0, tlen(r) > 0)))
+    return SVal(str, r)
+
+
 def m_next(it, args, kw):
     raise Unsupported("next()")
 
@@ -1179,6 +1279,26 @@ def sm_decode(it, b, args, kw):
     return fresh_text(it, "decoded")
 
 
+def sm_index(it, s, args, kw, find=False):
+    sub = args[0]
+    if len(args) > 1:
+        raise Unsupported("str.index with start/end")
+    if isinstance(s, SVal) or isinstance(sub, SVal):
+        raise Unsupported("str.index on opaque text")
+    s = resolve(it, to_sstr(s)); sub = resolve(it, to_sstr(sub))
+    m = len(sub.items)
+    if m == 0:
+        return 0
+    n = len(s.items)
+    for i in range(n - m + 1):
+        c = zand(*[code_eq(s.items[i + j][1], sub.items[j][1]) for j in range(m)])
+        if c is True or (c is not False and it.branch(c)):
+            return i
+    if find:
+        return -1
+    raise Raised(ValueError, "substring not found")
+
+
 def sm_split(it, s, args, kw):
     raise Unsupported("split on symbolic string")
 
@@ -1273,10 +1393,17 @@ def install(it):
     })
     import warnings
     it.models[warnings.warn] = m_warn
+    import xml.sax.saxutils as sx
+    it.models[sx.unescape] = m_unescape
+    from . import models_dec, models_dt, regex_match
+    models_dec.install(it)
+    models_dt.install(it)
+    regex_match.install(it)
     for name, fn in [("join", sm_join), ("zfill", sm_zfill), ("upper", sm_upper), ("lower", sm_lower),
                      ("strip", sm_strip), ("startswith", sm_startswith), ("endswith", sm_endswith),
                      ("replace", sm_replace), ("format", sm_format), ("isdigit", sm_isdigit),
-                     ("encode", sm_encode), ("split", sm_split)]:
+                     ("encode", sm_encode), ("split", sm_split), ("index", sm_index),
+                     ("find", lambda it, s_, a, k: sm_index(it, s_, a, k, find=True))]:
         it.methods[(str, name)] = fn
     it.methods[(bytes, "decode")] = sm_decode
     it.methods[(dict, "get")] = dm_get
